@@ -88,6 +88,35 @@ CLAIMS["C28"] = dict(
     technique=TECH,
 )
 
+BOUNDED_NOTE = ("Bounded stand-in, never counted as proved: a run-time contract on the top-level function evaluated over a "
+                "finite, seeded program family (bounds in the evidence file's rule). Trusted: the program generator and, "
+                "where used, the possible-world reference bounded/pw.py (my own code, ~150 lines, exact rationals). "
+                "Known findings listed in known_findings.json are reported as KNOWN-FINDING and do not fail the check.")
+BOUNDED_TECH = ("run-time contract (pre/post-condition) on the top-level function over a bounded program family; no "
+                "deductive contract within reach of the verifier for the tabled engine (stated in DESIGN.md)")
+EXPLORE = {
+    "C01": "Post-condition of get_evaluatable().create_from(program).evaluate() against an executable possible-world "
+           "specification (well-founded model per total choice, exact rationals) on seeded random programs of the "
+           "bounded family: probabilities, reported instances, InconsistentEvidenceError at zero evidence weight.",
+    "C02": "Same contract on programs with predicate-level cycles through negation, classified by the reference as "
+           "must-reject (some world three-valued on a query/evidence atom), must-answer (no negative cycle in the ground "
+           "graph) or either.",
+    "C03": "Metamorphic contract: the default engine with every batch of sibling evaluation messages permuted (seeded, "
+           "via a MessageFIFO subclass returned from an overridden init_message_stack) must agree with the unpermuted run.",
+    "C04": "Metamorphic contract: unbuffered depth-first, unbuffered rc-first and the random-order queue of "
+           "docs/source/engine.rst must agree with the default engine.",
+    "C05": "Metamorphic contract: every available exact back end (only d-DNNF is installed here; SDD/BDD variants raise "
+           "InstallError and are skipped, stated) and the log, user-defined, NSP and symbolic semirings must agree.",
+    "C06": "Metamorphic contract: each semantics-neutral option, sampled combinations, log space and the evidence "
+           "spellings must give the reference answer.",
+    "C07": "Metamorphic contract: seeded permutations of statements, clauses and body literals must give the reference answer.",
+    "C08": "Metamorphic contract: single-query groundings, one shared target grounded query by query in random order and "
+           "a reused prepared database must agree.",
+}
+for _pid, _text in EXPLORE.items():
+    CLAIMS[_pid] = dict(category="exploration", text=_text + " Bounded stand-in only: labelled bounded, not proved.",
+                        design_ref="DESIGN.md section 2, pipeline properties", technique=BOUNDED_TECH, note=BOUNDED_NOTE)
+
 NA = {
     "C22": "convergence of sample frequencies is a statistical limit, not a pre/post-condition of any call; a "
            "Hoeffding test would be statistical testing, a different technique family",
